@@ -674,8 +674,17 @@ fn c06_step(po: &HubObs, a: &Action, out: &Outcome, qo: &HubObs, cx: &mut Cx) {
             db = -moved;
             ds = moved;
         }
+    } else if fx_has_hub_exec(fx, "bond_rewards") || fx_has_hub_exec(fx, "update_global_index") {
+        // index update (directly or through a validator removal): the stSei pool grows by the re-bonded rewards
+        ds = fx
+            .iter()
+            .map(|e| match e {
+                Fx::Exec { contract, msg, funds, .. } if contract == HUB && msg.get("bond_rewards").is_some() => funds.iter().filter(|(d, _)| d == USEI).map(|(_, a)| *a as i128).sum(),
+                _ => 0,
+            })
+            .sum();
     } else {
-        known = false; // update_global_index / remove_validator: re-bond amount checked by C19/C13
+        known = false;
     }
     if !known {
         return;
